@@ -3,7 +3,9 @@ package main
 
 import (
 	"fmt"
+	"os"
 	"sort"
+	"strings"
 	"sync"
 	"time"
 
@@ -14,7 +16,25 @@ import (
 
 var cfgForExtra *luaprop.Config
 
+// devSrc (./c05 src file.lua): development aid -- runs one Lua text through the corpus path and prints
+// a Coq file evaluating check_skip / check_spec on it.
+func devSrc(file string) {
+	b, _ := os.ReadFile(file)
+	prog, err := luagen.ParseCorpus(string(b))
+	if err != nil {
+		panic(err)
+	}
+	text := luagen.PrintLua(prog)
+	out := luagen.RunIsolated(text, 20*time.Second, nil)
+	fmt.Printf("%s\nOpen Scope Z_scope.\nDefinition cc : case := CProg %s %s.\nEval vm_compute in (check_skip cc, check_spec cc, check_impl cc).\n(* %v *)\n",
+		luaprop.Header, luagen.CoqBlock(prog), out.Coq(), out.Summary())
+}
+
 func main() {
+	if len(os.Args) > 2 && os.Args[1] == "src" {
+		devSrc(os.Args[2])
+		return
+	}
 	f := luagen.CoreFeatures()
 	f.Errors, f.FaultPct, f.Closures, f.Meta, f.Coroutines, f.Funcs, f.Goto = 16, 75, 4, 3, 3, 4, 1
 	cfgForExtra = &luaprop.Config{
@@ -23,7 +43,10 @@ func main() {
 			"also from nested calls, metamethods and coroutines; after each the program keeps using the caller's locals, upvalues and tables; traces compared with the reference evaluator; " +
 			"non-trivial = at least 5 emitted rows or an error outcome; distinct by Gallina term",
 		Modes: []luaprop.Mode{{Name: "errors", Features: f, Weight: 3},
-			{Name: "errors-autostack", Features: f, Weight: 1, Run: &luagen.RunOptions{MinimizeStack: true, CallStackSize: 64}}},
+			{Name: "errors-autostack", Features: f, Weight: 1, Run: &luagen.RunOptions{MinimizeStack: true, CallStackSize: 64}},
+			// wave 5: a long history of one contained error along a chosen route, then probes of every
+			// mechanism whose bookkeeping the failed protected calls could have disturbed (history.go)
+			{Name: "history", Features: f, Weight: 1, Gen: historyGen}},
 		NQuick:    120,
 		NThorough: 2500,
 		Corpus:    corpus,
@@ -32,10 +55,11 @@ func main() {
 		Extra: func(w *lib.Writer, tier string, seed uint64) {
 			faultEnumeration(w, tier, seed)
 			apiProtected(w, tier, seed)
+			wave5(w, tier, seed)
 		},
 		KF: func(uses map[string]int, src string) []string {
 			var k []string
-			if uses["xpcall"] > 0 || uses["closure-after-xpcall-error"] > 0 {
+			if uses["xpcall"] > 0 || uses["closure-after-xpcall-error"] > 0 || strings.Contains(src, "xpcall(") {
 				k = append(k, "C05-5") // only matters when a message handler itself fails
 			}
 			return k
